@@ -18,7 +18,7 @@ var (
 	hPrefix  = regexp.MustCompile(`^##!\^\s*(.*\S)\s*$`)
 	hSuffix  = regexp.MustCompile(`^##!\$\s*(.*\S)\s*$`)
 	hFlags   = regexp.MustCompile(`^##!\+`)
-	hComment = regexp.MustCompile(`^##!(?:[^^$+><=]|$)`)
+	hComment = regexp.MustCompile(`^\s*##!(?:[^^$+><=]|$)`) // the marker may stand behind white space of any ASCII kind (form feed, CR), not only the indentation
 )
 
 // marks an entry that a suffix replacement emptied (see rewriteSuffixByHand)
@@ -432,6 +432,30 @@ func genExceptScenario(r *rand.Rand) *Program {
 	return p
 }
 
+// an entry that a pair `K ""` rewrites to nothing is an entry still — the empty one: the generated regex accepts the
+// empty string (next to the other entries) and not the key. args: a gen.run argument vector
+func oracleEmptiedEntry(p *Pair, env *Env, a [][]byte) *Failure {
+	g := p.Impl(Op{"gen.run", a}, env.timeout)
+	if g.Status != "ok" {
+		return &Failure{What: "a program with an entry rewritten to nothing does not compile", Detail: fmt.Sprintf("%q: %s", a[6], g.String())}
+	}
+	re, err := regexp.Compile(`\A(?:` + string(g.Out[0]) + `)\z`)
+	if err != nil {
+		return nil
+	}
+	for _, w := range []string{"", "foo", "baz"} {
+		if !re.MatchString(w) {
+			return &Failure{What: "suffix replacement lost an entry: the entry rewritten to the empty string is no longer an alternative", Detail: fmt.Sprintf("program %q files %q\noutput %q does not match %q", a[6], a[7:], g.Out[0], w)}
+		}
+	}
+	for _, w := range []string{"@", "foo@"} {
+		if re.MatchString(w) {
+			return &Failure{What: "suffix replacement kept the replaced key", Detail: fmt.Sprintf("output %q matches %q", g.Out[0], w)}
+		}
+	}
+	return nil
+}
+
 func genParserCases(focus string) func(r *rand.Rand, tier string, env *Env) []Case {
 	return func(r *rand.Rand, tier string, env *Env) []Case {
 		n := 250
@@ -492,6 +516,20 @@ func genParserCases(focus string) func(r *rand.Rand, tier string, env *Env) []Ca
 					args := append(append(append([][]byte{}, empty...), []byte(prog)), files...)
 					cases = append(cases, Case{Kind: "textless-include", Ops: []Op{{"parse.run", args[6:]}, {"gen.run", args}}, Oracles: []Op{{"parser.inline", args}}})
 				}
+			}
+		}
+		if focus == "except" || focus == "include" {
+			empty := [][]byte{{}, {}, {}, {}, {}, {}}
+			files := [][]byte{[]byte("i"), []byte("keys.ra"), []byte("foo\n@\nbaz\n"), []byte("e"), []byte("nil.ra"), []byte("zzz\n")}
+			for _, prog := range []string{"##!> include keys -- @ \"\"\n", "##!> include-except keys nil -- @ \"\"\n", "##!> assemble\n##!> include keys -- @ \"\"\n##!<\n"} {
+				args := append(append(append([][]byte{}, empty...), []byte(prog)), files...)
+				cases = append(cases, Case{Kind: "entry-rewritten-to-nothing", Ops: []Op{{"gen.run", args}}, Oracles: []Op{{"c06.emptied", args}}})
+			}
+			// an extension-less sibling of an include file (a directory or a file): the name still means NAME.ra
+			sib := [][]byte{[]byte("i"), []byte("cmds.ra"), []byte("curl\nwget\n"), []byte("i"), []byte("=cmds"), []byte("notes-to-self\n"), []byte("e"), []byte("nil.ra"), []byte("zzz\n")}
+			for _, prog := range []string{"##!> include cmds\nomega\n", "##!> include-except cmds nil\nomega\n"} {
+				args := append(append(append([][]byte{}, empty...), []byte(prog)), sib...)
+				cases = append(cases, Case{Kind: "extension-less-sibling", Ops: []Op{{"parse.run", args[6:]}, {"gen.run", args}}, Oracles: []Op{{"parser.inline", args}}})
 			}
 		}
 		if focus == "defs" || focus == "include" {
@@ -600,6 +638,7 @@ func init() {
 	rule := "programs from the tree grammar with include files (plain lists, lists with comments/blank lines/indentation, files with prefixes and/or suffixes, own definitions, nested includes, include vs exclude directory, with/without .ra), include-except with 1-2 exclusion files, suffix replacement lists incl. chained pairs, definitions; " +
 		"compared with the same program inlined/expanded by an independent naive reading in the harness; non-trivial = at least one include or definition; distinct by bytes"
 	properties["C05"] = &Property{ID: "C05", LeanMods: []string{"CrsProps.C05"}, Corr: "K2 (parser.Parse buffer/flags/prefixes/suffixes/variables), K5", Rule: rule, Gen: genParserCases("include"), Escalate: escalateParser}
+	oracles["c06.emptied"] = oracleEmptiedEntry
 	properties["C06"] = &Property{ID: "C06", LeanMods: []string{"CrsProps.C06"}, Corr: "K2 (parser.Parse; replaceSuffixes/buildPairMap alone), K5", Rule: rule, Gen: genParserCases("except"), Escalate: escalateParser}
 	properties["C07"] = &Property{ID: "C07", LeanMods: []string{"CrsProps.C07"}, Corr: "K2 (parser.Parse; expandDefinitions alone, Go's own random map order varies across calls), K5", Rule: rule + "; definition lines permuted (all permutations up to 4 definitions, sampled beyond)", Gen: genParserCases("defs"), Escalate: escalateParser,
 		Assume: []string{"no computed names: no reference comes into existence only through a substitution (generator produces values whose chunks do not end in a proper prefix of a reference)"}}
